@@ -1,14 +1,28 @@
-(* runner/Names/driver.ml — replays the harness trace for C14 on the extracted Coq model.
-   Input lines (from the Go harness), fields separated by single spaces:
-     PAIR <name> <name> <cmp> <eq> <pfx_ab> <pfx_ba>     implementation's Compare/Equal/IsPrefix
-     BYTES <name> <hex>                                     Name.Bytes()
-     FROMBYTES <hex> ok <name> | FROMBYTES <hex> err        NameFromBytes
-     STR <name> <hex>                                       Name.String() as hex bytes
-     PARSE <hex> ok <name> | err | panic                    NameFromStr
-     HASH <name> <0|1>                                      relational hash checks done in Go (1 = held)
-     RT <name> <wf 0|1> ok <name> | err | panic             NameFromStr(Name.String())
-   A name is "-" (empty) or comma separated typ:hexvalue items.
-   Output: one "DIVERGE <lineno> <kind> model=<..> impl=<..>" per disagreement and a final "DONE <lines>". *)
+(* runner/Names/driver.ml — replays the harness trace for C14 on the model extracted from Coq (coq/Names/Model.v) and
+   evaluates the extracted spec oracle (coq/Names/Spec.v) on the implementation's observations.
+
+   Input lines (from harness/names), fields separated by single spaces; a name is "-" (empty) or comma separated
+   typ:hexvalue items; a hex string is "-" when empty; a comparison is -1/0/1; a bool is 0/1.
+     PAIR <a> <b> <cmp> <eq> <pfx_ab> <pfx_ba> <cmp_ba> <hash_eq> <bytes_a> <bytes_b>
+     TRIPLE <a> <b> <c> <ab> <bc> <ac> <ba> <cb> <ca>
+     COMP <c> <d> <cmp> <eq> <bytes_c> <bytes_d>
+     BYTES <a> <hex>                               Name.Bytes
+     FROMBYTES <hex> ok <name> | err               NameFromBytes
+     HASH <a> <0|1>                                relational hash checks done in Go (1 = held)
+     STR <a> <hex>                                 Name.String
+     RT <a> ok <name> | err | panic                NameFromStr(Name.String())
+     CSTR <c> <hexString> <hexCanonical>           Component.String, Component.CanonicalString
+     CRT <c> <r1> <r2>                             ComponentFromStr(c.String()), ComponentFromStr(c.CanonicalString()); r = ok=<comp>|err|panic
+     PARSE <hex> ok <name> | err | panic           NameFromStr
+     CPARSE <hex> ok=<comp> | err | panic          ComponentFromStr
+     PPARSE <hex> ok <npat> <hexString> | err | panic     NamePatternFromStr, NamePattern.String
+     CPPARSE <hex> ok <cpat> <hexString> | err | panic    ComponentPatternFromStr, String
+     PPAIR <hex1> <hex2> ok <cmp> <eq> | err | panic      NamePattern.Compare/Equal of the two parsed patterns
+     FULL <a> <digesthex> ok <name> | panic        Name.ToFullName
+     CONV/DIST lines are for the check script and are skipped here.
+   Output: "DIVERGE <lineno> <kind> model=<..> impl=<..>" when model and implementation disagree,
+           "SPECFAIL <lineno> <kind> <what>" when the implementation's observations violate the spec predicate,
+           "NOTE <lineno> <text>", "BADLINE <lineno> <line>", and a final "DONE <lines>". *)
 open Names_model
 
 let rec pos_of_int (i : int) : positive =
@@ -18,19 +32,34 @@ let rec int_of_pos = function XH -> 1 | XO p -> 2 * int_of_pos p | XI p -> 2 * i
 let int_of_n = function N0 -> 0 | Npos p -> int_of_pos p
 let n10 = n_of_int 10
 let n_of_dec (s : string) : n =
+  if s = "" then failwith "empty number";
   let acc = ref N0 in
-  String.iter (fun c -> acc := N.add (N.mul !acc n10) (n_of_int (Char.code c - 48))) s; !acc
+  String.iter (fun c -> if c < '0' || c > '9' then failwith "bad number";
+                        acc := N.add (N.mul !acc n10) (n_of_int (Char.code c - 48))) s; !acc
 let rec dec_of_n (x : n) : string =
   if N.ltb x n10 then string_of_int (int_of_n x)
   else dec_of_n (N.div x n10) ^ string_of_int (int_of_n (N.modulo x n10))
 
+let byte_tab = Array.init 256 n_of_int
+let hexval c = match c with
+  | '0'..'9' -> Char.code c - 48 | 'a'..'f' -> Char.code c - 87 | 'A'..'F' -> Char.code c - 55
+  | _ -> failwith "bad hex"
 let bytes_of_hex (h : string) : n list =
   let l = String.length h / 2 in
-  List.init l (fun i -> n_of_int (int_of_string ("0x" ^ String.sub h (2*i) 2)))
+  if String.length h mod 2 <> 0 then failwith "odd hex";
+  let r = ref [] in
+  for i = l - 1 downto 0 do
+    r := byte_tab.(hexval h.[2*i] * 16 + hexval h.[2*i+1]) :: !r
+  done; !r
+let hexdig = "0123456789abcdef"
 let hex_of_bytes (b : n list) : string =
-  if b = [] then "" else String.concat "" (List.map (fun x -> Printf.sprintf "%02x" (int_of_n x)) b)
-let hexf h = if h = "" then "-" else h
-let unhexf h = if h = "-" then "" else h
+  let buf = Buffer.create 64 in
+  List.iter (fun x -> let v = int_of_n x in
+              if v > 255 then Buffer.add_string buf (Printf.sprintf "[%d]" v)
+              else (Buffer.add_char buf hexdig.[v lsr 4]; Buffer.add_char buf hexdig.[v land 15])) b;
+  Buffer.contents buf
+let hexf b = let h = hex_of_bytes b in if h = "" then "-" else h
+let unhexf h = bytes_of_hex (if h = "-" then "" else h)
 
 let comp_of_string (s : string) : comp =
   match String.index_opt s ':' with
@@ -40,47 +69,123 @@ let name_of_string (s : string) : name =
   if s = "-" then [] else List.map comp_of_string (String.split_on_char ',' s)
 let string_of_comp (c : comp) = dec_of_n c.ctyp ^ ":" ^ hex_of_bytes c.cval
 let string_of_name (n : name) = if n = [] then "-" else String.concat "," (List.map string_of_comp n)
+let string_of_cpat = function
+  | CPComp c -> "C~" ^ string_of_comp c
+  | CPPat (t, tag) -> "P~" ^ dec_of_n t ^ ":" ^ hex_of_bytes tag
+let string_of_npat (p : npat) = if p = [] then "-" else String.concat "," (List.map string_of_cpat p)
 
 let cmp_int = function Eq -> "0" | Lt -> "-1" | Gt -> "1"
+let cmp_of_string = function "0" -> Eq | "-1" -> Lt | "1" -> Gt | s -> failwith ("bad comparison " ^ s)
+let bool_of_01 = function "1" -> true | "0" -> false | s -> failwith ("bad bool " ^ s)
 let b01 b = if b then "1" else "0"
+
+let pres_name_str = function POk n -> "ok " ^ string_of_name n | PErr -> "err" | PPanic -> "panic"
+let pres_comp_str = function POk c -> "ok=" ^ string_of_comp c | PErr -> "err" | PPanic -> "panic"
+let pres_name_of (l : string list) : name pres =
+  match l with
+  | ["ok"; n] -> POk (name_of_string n) | ["err"] -> PErr | ["panic"] -> PPanic
+  | _ -> failwith "bad result"
+let pres_comp_of (s : string) : comp pres =
+  if s = "err" then PErr else if s = "panic" then PPanic
+  else if String.length s > 3 && String.sub s 0 3 = "ok=" then POk (comp_of_string (String.sub s 3 (String.length s - 3)))
+  else failwith "bad result"
 
 let () =
   let lineno = ref 0 in
   let diverge kind m i = Printf.printf "DIVERGE %d %s model=%s impl=%s\n" !lineno kind m i in
+  let specfail kind what = Printf.printf "SPECFAIL %d %s %s\n" !lineno kind what in
+  let note text = Printf.printf "NOTE %d %s\n" !lineno text in
+  let br s = "[" ^ s ^ "]" in
+  let cut s = if String.length s > 600 then String.sub s 0 600 ^ "..." else s in
+  let cmpstr kind m i = if m <> i then diverge kind (br (cut m)) (br (cut i)) in
   (try
     while true do
       let line = input_line stdin in
       incr lineno;
+      (try
       match String.split_on_char ' ' line with
-      | ["PAIR"; a; b; c; e; p1; p2] ->
+      | (("PAIR" | "TRIPLE" | "COMP" | "BYTES" | "STR" | "CSTR" | "HASH") as k) :: rest
+        when (match List.rev rest with "panic" :: _ -> true | _ -> false) ->
+          specfail k "the implementation panicked"
+      | ["PAIR"; a; b; c; e; p1; p2; cba; heq; ea; eb] ->
           let na = name_of_string a and nb = name_of_string b in
-          let m = String.concat " " [cmp_int (name_cmp na nb); b01 (name_eqb na nb); b01 (is_prefix na nb); b01 (is_prefix nb na)] in
-          let i = String.concat " " [c; e; p1; p2] in
-          if m <> i then diverge "PAIR" ("[" ^ m ^ "]") ("[" ^ i ^ "]")
+          let m = String.concat " " [cmp_int (name_cmp na nb); b01 (name_eqb na nb); b01 (is_prefix na nb); b01 (is_prefix nb na);
+                                     cmp_int (name_cmp nb na)] in
+          cmpstr "PAIR" m (String.concat " " [c; e; p1; p2; cba]);
+          cmpstr "PAIRBYTES" (hexf (name_bytes na) ^ " " ^ hexf (name_bytes nb)) (ea ^ " " ^ eb);
+          let same_input = bytes_eqb (name_hash_input na) (name_hash_input nb) in
+          if same_input && heq <> "1" then diverge "HASHFN" "equal-hash-input=>equal-hash" "hashes-differ";
+          if (not same_input) && heq = "1" then note "64-bit hash collision between names with different hash inputs";
+          if same_input && not (name_eqb na nb) then note "different names feed the same bytes to the hasher (hash_input_not_injective)";
+          (* oracle on the implementation's observations *)
+          if not (pair_ok (cmp_of_string c) (bool_of_01 e) (bool_of_01 p1) (bool_of_01 p2) (unhexf ea) (unhexf eb) (bool_of_01 heq))
+          then specfail "PAIR" "Compare/Equal/IsPrefix/Bytes/Hash observations of the pair are mutually inconsistent (pair_ok)";
+          if cmp_of_string cba <> (match cmp_of_string c with Eq -> Eq | Lt -> Gt | Gt -> Lt)
+          then specfail "PAIR" "Compare is not antisymmetric on this pair"
+      | ["TRIPLE"; a; b; c; ab; bc; ac; ba; cb; ca] ->
+          let na = name_of_string a and nb = name_of_string b and nc = name_of_string c in
+          let m = String.concat " " (List.map cmp_int [name_cmp na nb; name_cmp nb nc; name_cmp na nc; name_cmp nb na; name_cmp nc nb; name_cmp nc na]) in
+          cmpstr "TRIPLE" m (String.concat " " [ab; bc; ac; ba; cb; ca]);
+          if not (triple_ok (cmp_of_string ab) (cmp_of_string bc) (cmp_of_string ac) (cmp_of_string ba) (cmp_of_string cb) (cmp_of_string ca))
+          then specfail "TRIPLE" "order axioms (antisymmetry/transitivity) fail on this triple (triple_ok)"
+      | ["COMP"; c; d; cm; e; ec; ed] ->
+          let cc = comp_of_string c and cd = comp_of_string d in
+          cmpstr "COMP" (cmp_int (comp_cmp cc cd) ^ " " ^ b01 (comp_eqb cc cd)) (cm ^ " " ^ e);
+          cmpstr "COMPBYTES" (hexf (comp_enc cc) ^ " " ^ hexf (comp_enc cd)) (ec ^ " " ^ ed);
+          if not (comp_ok (cmp_of_string cm) (bool_of_01 e) (unhexf ec) (unhexf ed))
+          then specfail "COMP" "Component Compare/Equal disagree with the bytewise order/equality of the encodings (comp_ok)"
       | ["BYTES"; a; h] ->
-          let m = hexf (hex_of_bytes (name_bytes (name_of_string a))) in
-          if m <> h then diverge "BYTES" m h
+          cmpstr "BYTES" (hexf (name_bytes (name_of_string a))) h
       | "FROMBYTES" :: h :: rest ->
-          let m = match name_from_bytes (bytes_of_hex (unhexf h)) with Some n -> "ok " ^ string_of_name n | None -> "err" in
-          let i = String.concat " " rest in
-          if m <> i then diverge "FROMBYTES" ("[" ^ m ^ "]") ("[" ^ i ^ "]")
+          let m = match name_from_bytes (unhexf h) with Some n -> "ok " ^ string_of_name n | None -> "err" in
+          cmpstr "FROMBYTES" m (String.concat " " rest)
+      | ["HASH"; a; ok] -> if ok <> "1" then specfail "HASH" "equal names hash differently or PrefixHash[i] <> Hash(prefix i)"
       | ["STR"; a; h] ->
-          let m = hexf (hex_of_bytes (name_to_str (name_of_string a))) in
-          if m <> h then diverge "STR" m h
-      | "PARSE" :: h :: rest ->
-          let m = match name_from_str (bytes_of_hex (unhexf h)) with POk n -> "ok " ^ string_of_name n | PErr -> "err" | PPanic -> "panic" in
-          let i = String.concat " " rest in
-          if m <> i then diverge "PARSE" ("[" ^ m ^ "]") ("[" ^ i ^ "]")
-      | ["HASH"; a; ok] -> if ok <> "1" then diverge "HASH" "1" ok
-      | "RT" :: a :: wf :: rest ->
+          cmpstr "STR" (hexf (name_to_str (name_of_string a))) h
+      | "RT" :: a :: rest ->
           let na = name_of_string a in
-          let m = match name_from_str (name_to_str na) with POk n -> "ok " ^ string_of_name n | PErr -> "err" | PPanic -> "panic" in
-          let i = String.concat " " rest in
-          if m <> i then diverge "RT" ("[" ^ m ^ "]") ("[" ^ i ^ "]");
-          (* oracle: for URI-wellformed names the round trip must return the name itself *)
-          if wf = "1" && i <> "ok " ^ a then diverge "RTSPEC" ("[ok " ^ a ^ "]") ("[" ^ i ^ "]")
+          cmpstr "RT" (pres_name_str (name_from_str_f (name_to_str na))) (String.concat " " rest);
+          if not (rt_ok na (pres_name_of rest))
+          then specfail "RT" (if uri_wfb na then "NameFromStr(n.String()) <> n for a name in the round-trip domain (rt_ok)"
+                              else "NameFromStr panicked (rt_ok)")
+      | ["CSTR"; c; hs; hc] ->
+          let cc = comp_of_string c in
+          cmpstr "CSTR" (hexf (comp_to_str cc) ^ " " ^ hexf (comp_to_canon cc)) (hs ^ " " ^ hc)
+      | ["CRT"; c; r1; r2] ->
+          let cc = comp_of_string c in
+          cmpstr "CRT" (pres_comp_str (comp_from_str (comp_to_str cc)) ^ " " ^ pres_comp_str (comp_from_str (comp_to_canon cc))) (r1 ^ " " ^ r2);
+          if not (crt_ok cc (pres_comp_of r1) (pres_comp_of r2))
+          then specfail "CRT" "ComponentFromStr(String/CanonicalString) round trip fails or panics (crt_ok)"
+      | "PARSE" :: h :: rest ->
+          cmpstr "PARSE" (pres_name_str (name_from_str_f (unhexf h))) (String.concat " " rest);
+          if rest = ["panic"] then specfail "PARSE" "NameFromStr panicked"
+      | ["CPARSE"; h; r] ->
+          cmpstr "CPARSE" (pres_comp_str (comp_from_str (unhexf h))) r;
+          if r = "panic" then specfail "CPARSE" "ComponentFromStr panicked"
+      | "PPARSE" :: h :: rest ->
+          let m = match name_pattern_from_str_f (unhexf h) with
+            | POk p -> "ok " ^ string_of_npat p ^ " " ^ hexf (npat_to_str p) | PErr -> "err" | PPanic -> "panic" in
+          cmpstr "PPARSE" m (String.concat " " rest);
+          if rest = ["panic"] then specfail "PPARSE" "NamePatternFromStr panicked"
+      | "CPPARSE" :: h :: rest ->
+          let m = match comp_pattern_from_str_f (unhexf h) with
+            | POk p -> "ok " ^ string_of_cpat p ^ " " ^ hexf (cpat_to_str p) | PErr -> "err" | PPanic -> "panic" in
+          cmpstr "CPPARSE" m (String.concat " " rest);
+          if rest = ["panic"] then specfail "CPPARSE" "ComponentPatternFromStr panicked"
+      | "PPAIR" :: h1 :: h2 :: rest ->
+          let m = match name_pattern_from_str_f (unhexf h1), name_pattern_from_str_f (unhexf h2) with
+            | POk p, POk q -> let c = npat_cmp p q in "ok " ^ cmp_int c ^ " " ^ b01 (c = Eq)
+            | PPanic, _ | _, PPanic -> "panic"
+            | _, _ -> "err" in
+          cmpstr "PPAIR" m (String.concat " " rest);
+          if rest = ["panic"] then specfail "PPAIR" "NamePatternFromStr/Compare panicked"
+      | "FULL" :: a :: dg :: rest ->
+          let m = match to_full_name (unhexf dg) (name_of_string a) with POk n -> "ok " ^ string_of_name n | PErr -> "err" | PPanic -> "panic" in
+          cmpstr "FULL" m (String.concat " " rest)
+      | "CONV" :: _ | "DIST" :: _ -> ()
       | [""] | [] -> ()
-      | _ -> Printf.printf "BADLINE %d %s\n" !lineno line
+      | _ -> Printf.printf "BADLINE %d %s\n" !lineno (cut line)
+      with Failure msg -> Printf.printf "BADLINE %d (%s) %s\n" !lineno msg (cut line))
     done
   with End_of_file -> ());
   Printf.printf "DONE %d\n" !lineno
